@@ -187,7 +187,7 @@ POINT_SETS = {
     "p5+1": ([(0, 0), (6, -1), (9, 4), (4, 8), (-1, 5), (4, 3)], 5),
     "q4+2": ([(0, 0), (8, 0), (9, 7), (1, 8), (3, 2), (6, 5)], 4),
     "h6": ([(0, 0), (5, -2), (10, 1), (11, 6), (5, 9), (-1, 5)], 6),
-    "h6+1": ([(0, 0), (5, -2), (10, 1), (11, 6), (5, 9), (-1, 5), (5, 3)], 6),
+    "h6+1": ([(0, 0), (5, -2), (10, 1), (11, 6), (5, 9), (-1, 5), (6, 4)], 6),
     "p5+2": ([(0, 0), (6, -1), (9, 4), (4, 8), (-1, 5), (3, 2), (5, 5)], 5),
     "h7": ([(0, 0), (5, -2), (10, 1), (12, 6), (8, 10), (2, 10), (-2, 5)], 7),
     "h6+2": ([(0, 0), (5, -2), (10, 1), (11, 6), (5, 9), (-1, 5), (3, 3), (7, 5)], 6),
